@@ -100,9 +100,12 @@ def _child_main(fn, rfd, wfd, cpu_s, as_bytes, init):
         if msg is None:
             os._exit(0)
         x = msg
+        call_cpu = cpu_s
+        if isinstance(msg, dict) and "__sandbox_cpu_s__" in msg:      # a per-call budget (see Sandbox.run)
+            call_cpu, x = msg["__sandbox_cpu_s__"], msg["x"]
         cpu0 = _cpu_now()
-        if cpu_s:
-            resource.setrlimit(resource.RLIMIT_CPU, (int(cpu0) + int(cpu_s) + 1, hard))
+        if call_cpu:
+            resource.setrlimit(resource.RLIMIT_CPU, (int(cpu0) + int(call_cpu) + 1, hard))
         rss0 = resource.getrusage(resource.RUSAGE_SELF).ru_maxrss
         t0 = time.perf_counter()
         try:
@@ -208,12 +211,13 @@ class Sandbox:
             self._reap(kill=True)
 
     # -- asynchronous interface (used by Pool)
-    def submit(self, x):
+    def submit(self, x, cpu_s=None, wall_s=None):
         if self.pid is None:
             self._spawn()
         self._busy_since = time.perf_counter()
+        self._call_wall = wall_s
         try:
-            _send(self.wfd, x)
+            _send(self.wfd, x if cpu_s is None else {"__sandbox_cpu_s__": cpu_s, "x": x})
         except (BrokenPipeError, OSError):
             pass                    # the worker is dead: collect() reports it
 
@@ -221,7 +225,7 @@ class Sandbox:
         return self.rfd
 
     def deadline(self):
-        return self._busy_since + self.wall_s
+        return self._busy_since + (getattr(self, "_call_wall", None) or self.wall_s)
 
     def collect(self, timed_out=False):
         """Call when fileno() is readable, or with timed_out=True when the deadline passed."""
@@ -247,9 +251,10 @@ class Sandbox:
         return out
 
     # -- synchronous interface
-    def run(self, x):
-        self.submit(x)
-        remaining = self.wall_s
+    def run(self, x, cpu_s=None, wall_s=None):
+        """cpu_s / wall_s: budget of THIS call when it differs from the worker's default (e.g. scaled with the input)"""
+        self.submit(x, cpu_s=cpu_s, wall_s=wall_s)
+        remaining = wall_s or self.wall_s
         while True:
             try:
                 r, _, _ = select.select([self.rfd], [], [], max(0.0, remaining))
